@@ -92,7 +92,8 @@ def case_build(case, col=None):
             raise Violation(f"accessor_rel:{tag}", f"{tag}: rel {m.rel!r} vs {rel!r}")
     # negative errors are rejected
     for tag, fn in (("Measurement(v,-e,unit)", lambda: M(v, -abs(v) * 0.1 - 1e-300, ua)), ("Measurement(Q,-Q)", lambda: M(Q(v, ua), Q(-abs(v) * 0.1 - 1e-300, ub))),
-                    ("plus_minus(-e)", lambda: Q(v, ua).plus_minus(-abs(v) * 0.1 - 1e-300))):
+                    ("plus_minus(-e)", lambda: Q(v, ua).plus_minus(-abs(v) * 0.1 - 1e-300)), ("plus_minus(-r,relative)", lambda: Q(v, ua).plus_minus(-0.05, relative=True)),
+                    ("plus_minus(-Q)", lambda: Q(v, ua).plus_minus(Q(-abs(v) * 0.1 - 1e-300, ub))), ("Measurement(ufloat(-e))", lambda: M(v, -abs(v) * 0.1 - 1e-300, ureg.Unit(ua)))):
         s, m = attempt(fn)
         if s == "ok":
             raise Violation(f"negative_error_accepted:{tag}", f"{tag} returned {m!r}")
@@ -123,7 +124,7 @@ def case_convert(case, col=None):
         want_v = ((v * sa + oa) - ob) / sb
         slope = sa / sb
     else:
-        slope = float(R.resolve(ua).factor / R.resolve(ub).factor)
+        slope = float(R.resolve_spelling(ua).factor / R.resolve_spelling(ub).factor)
         want_v = v * slope
     if col is not None:
         col.case(("c", v, rel, ua, ub), ua != ub, sample=case, cls="offset" if temp else "multiplicative")
@@ -144,6 +145,19 @@ def case_convert(case, col=None):
             raise Violation("measurement_conversion_changes_rel", f"{v}+/-{e} {ua} -> {ub}: rel {r.rel!r} vs {rel!r}")
         if type(r).__name__ != "Measurement":
             raise Violation("measurement_conversion_type", f"{type(r).__name__}")
+    # unit-rewriting helpers treat a measurement like the plain quantity of its nominal value
+    if not temp and v != 0:
+        for tag, fm, fq in (("to_compact", lambda: m.to_compact(), lambda: ureg.Quantity(v, ua).to_compact()), ("to_root_units", lambda: m.to_root_units(), lambda: ureg.Quantity(v, ua).to_root_units()),
+                            ("to_base_units", lambda: m.to_base_units(), lambda: ureg.Quantity(v, ua).to_base_units())):
+            (s1, r1), (s2, r2) = attempt(fm), attempt(fq)
+            if s2 == "err":
+                continue
+            if s1 == "err":
+                raise Violation(f"measurement_helper_raised:{tag}:{exc_class(r1)}", f"{tag} of {v}+/-{e} {ua}: {r1!r}")
+            if dict(r1._units) != dict(r2._units) or not close(r1.magnitude.nominal_value, r2.magnitude, 1e-9):
+                raise Violation(f"measurement_helper_differs_from_plain_quantity:{tag}", f"{tag} of {v}+/-{e} {ua}: {r1.magnitude!r} {dict(r1._units)}, plain quantity {r2.magnitude!r} {dict(r2._units)}")
+            if e and not close(r1.magnitude.std_dev / abs(r1.magnitude.nominal_value), e / abs(v), 1e-9):
+                raise Violation(f"measurement_helper_changes_rel:{tag}", f"{tag} of {v}+/-{e} {ua}")
     # a converted measurement stays fully correlated with its source
     d = m.to(ub) - m
     if not temp and (abs(d.magnitude.std_dev) > 1e-9 * max(e * abs(slope), 1e-300) and e > 0):
@@ -153,7 +167,9 @@ def case_convert(case, col=None):
 def run_convert(task, tier, seed, col):
     cl = classes()
     keys = sorted(cl)
-    mult = st.builds(lambda k, i, j, v, r: {"ua": cl[k][i % len(cl[k])], "ub": cl[k][j % len(cl[k])], "v": v, "rel": r}, st.sampled_from(keys), st.integers(0, 99), st.integers(0, 99), vals, rels)
+    # (the source unit may carry a decimal prefix: kilo<unit>, milli<unit>, micro<unit>)
+    mult = st.builds(lambda k, i, j, v, r, p: {"ua": p + cl[k][i % len(cl[k])], "ub": cl[k][j % len(cl[k])], "v": v, "rel": r}, st.sampled_from(keys), st.integers(0, 99), st.integers(0, 99), vals, rels,
+                     st.sampled_from(["", "", "kilo", "milli", "micro"]))
     temp = st.builds(lambda a, b, v, r: {"ua": a, "ub": b, "v": v, "rel": r}, st.sampled_from(sorted(TEMPS)), st.sampled_from(sorted(TEMPS)), st.floats(-200, 2000), rels)
     hyp_search(col, st.one_of(mult, mult, temp), lambda c: case_convert(c, col), max_examples=2000 if tier == "quick" else 20000, seed=seed * 307)
 
